@@ -49,8 +49,12 @@ func RichString(t *tape.Tape, label string) string {
 			ls = append(ls, Word(t, label))
 		}
 		s := strings.Join(ls, []string{"\n", "\n\n", "\r\n", "\n  "}[t.Draw(4, label+":nlsep")])
-		if t.Draw(3, label+":trail") == 2 {
+		switch t.Draw(6, label+":trail") {
+		case 2, 3:
 			s += "\n"
+		case 4:
+			// several final line breaks (a YAML emitter needs the "keep" indicator for these)
+			s += []string{"\n\n", "\n\n\n", "\n\r\n"}[t.Draw(3, label+":trailn")]
 		}
 		return s
 	case 6:
